@@ -131,7 +131,27 @@ func vXdsWatchGen(r *vRand, tier string, idx int) (cfg []int64, ops [][]int64) {
 	ver := int64(0)
 	ops = append(ops, []int64{3})
 	contents := []int64{7, 7, 8, 9}
+	// scenario "stale expiry timer": watch (request sent, timer started), cancel, watch the same
+	// resource again, the server delivers it, then sleep past the FIRST watch's expiry: nothing may be
+	// reported.  Right after the first stream in every third case, at a random position in half of the others.
+	scenario := func() {
+		w, t, nm := int64(r.Intn(6)), int64(r.Intn(2)), int64(r.Intn(3))
+		ver++
+		ops = append(ops, []int64{3}, []int64{2, w}, []int64{1, w, t, nm}, []int64{2, w}, []int64{1, w, t, nm},
+			[]int64{5, t, ver, ver, nm, 1, contents[r.Intn(len(contents))]}, []int64{8})
+	}
+	at := -1
+	if idx%3 == 1 {
+		scenario()
+	} else if r.Chance(50) {
+		at = 8 + r.Intn(n-8)
+	}
 	for len(ops) < n {
+		if at >= 0 && len(ops) >= at {
+			at = -1
+			scenario()
+			continue
+		}
 		switch x := r.Intn(100); {
 		case x < 20:
 			ops = append(ops, []int64{1, int64(r.Intn(6)), int64(r.Intn(2)), int64(r.Intn(3))})
